@@ -93,7 +93,12 @@ Section Trace.
     let p0 := k_nr_sphere O (rL r) (rM r) (rN r) (rx r) (ry r) R (rz r) in
     match newton sh tol (rL r) (rM r) (rN r) maxit p0 with
     | None => None
-    | Some (x, y, z) => Some (norm3 (sub x (rx r)) (sub y (ry r)) (sub z (rz r)))
+    | Some (x, y, z) =>
+        let dx := sub x (rx r) in let dy := sub y (ry r) in let dz := sub z (rz r) in
+        let t := norm3 dx dy dz in
+        (* an intersection behind the ray is not a hit *)
+        let along := add (add (mul dx (rL r)) (mul dy (rM r))) (mul dz (rN r)) in
+        Some (if ltb_ along (ofZ 0) then nan_ else t)
     end.
 
   Definition distance (sh : shape) (r : ray) : option T :=
